@@ -22,6 +22,16 @@ pub struct FSim;
 pub struct FSimCb;
 pub struct FRs;
 pub struct FRsCb;
+/// owned hasher + a zero-sized callback type (constructor code 9)
+pub struct FSimCbZ;
+impl LruFlavor for FSimCbZ {
+    type E = ZstCallback;
+    type S = SimBuildHasher;
+    const NAME: &'static str = "RawLRU::with_on_evict_cb_and_hasher (zero-sized callback type)";
+    fn build<K: SimKey>(cap: usize, hs: &HasherSpec) -> Result<RawLRU<K, TV, Self::E, Self::S>, CacheError> {
+        RawLRU::with_on_evict_cb_and_hasher(cap, ZstCallback::make(), SimBuildHasher::new(*hs))
+    }
+}
 impl LruFlavor for FSim {
     type E = DefaultEvictCallback;
     type S = SimBuildHasher;
